@@ -1320,7 +1320,12 @@ class QueryBuilder(Selectable, Term):
             terms = [terms]
 
         for values in terms:
-            self._values.append([value if isinstance(value, Term) else self.wrap_constant(value) for value in values])
+            self._values.append(
+                [
+                    value if isinstance(value, Term) else self.wrap_constant(value, wrapper_cls=self._wrapper_cls)
+                    for value in values
+                ]
+            )
 
     def __str__(self) -> str:
         return self.get_sql(dialect=self.dialect)
